@@ -146,12 +146,21 @@ Definition apply_func (func : val -> option val) (rg dg : geom) (x : val) : opti
 Definition forward (m : lmodel) (x : val) : option val := apply_func (lm_fwd m) (lm_R m) (lm_D m) x.
 Definition adjoint (m : lmodel) (y : val) : option val := apply_func (lm_adj m) (lm_D m) (lm_R m) y.
 
-(* LinearModel(matrix): forward_func = _matrix @ x, adjoint_func = _matrix.T @ y (vectors only; a
-   matrix applied to an image is outside this model) *)
+(* LinearModel(matrix): forward_func = _matrix @ x, adjoint_func = _matrix.T @ y.  Applied to an image (a rank-2
+   function value of an image geometry) `@` is the matrix product  A X  (numpy refuses mismatching inner dimensions) *)
+Definition mmul (c : nat) (A X : list (list Qc)) : list (list Qc) := map (fun arow => qmattvec c X arow) A.
 Definition mat_fwd (A : list (list Qc)) (v : val) : option val :=
-  match v with V1 l => Some (V1 (qmatvec A l)) | V2 _ _ _ => None end.
+  match v with
+  | V1 l => Some (V1 (qmatvec A l))
+  | V2 r c l => if forallb (fun row => (length row =? r)%nat) A
+                then Some (V2 (length A) c (concat (mmul c A (chunks c r l)))) else None
+  end.
 Definition mat_adj (n : nat) (A : list (list Qc)) (v : val) : option val :=
-  match v with V1 l => Some (V1 (qmattvec n A l)) | V2 _ _ _ => None end.
+  match v with
+  | V1 l => Some (V1 (qmattvec n A l))
+  | V2 r c l => if (length A =? r)%nat
+                then Some (V2 n c (concat (mmul c (tr n A) (chunks c r l)))) else None
+  end.
 Definition mat_model (n : nat) (A : list (list Qc)) (D R : geom) : lmodel :=
   mkLM (mat_fwd A) (mat_adj n A) (Some A) D R.
 
@@ -277,6 +286,62 @@ Definition deconv2_model (m : bc) (S n : nat) (P : list (list Qc)) : lmodel :=
   mkLM (img_op n n (conv2 m S n n P)) (img_op n n (conv2 m S n n (flip2 P))) None (GImage n n OC) (GImage n n OC).
 
 (* ------------------------------------------------------------------------------------------ *)
+(* repaired variants (fixes/C07_transpose_underlying_callables.diff, C07_proj_backward_even_psf.diff) *)
+(* ------------------------------------------------------------------------------------------ *)
+(* T built from the UNDERLYING callables (_adjoint_func, _forward_func): conversions applied once *)
+Definition lmT2 (ncols : nat) (m : lmodel) : lmodel :=
+  mkLM (lm_adj m) (lm_fwd m) (option_map (tr ncols) (lm_mat m)) (lm_R m) (lm_D m).
+Definition lmT_gen (underlying : bool) (ncols : nat) (m : lmodel) : lmodel :=
+  if underlying then lmT2 ncols m else lmT ncols m.
+
+(* get_matrix after fixes/C07_get_matrix_parameter_map.diff: a GIVEN matrix is returned only where it is the map between
+   parameters (as_is: identity geometries, or the matrix was assembled from forward); otherwise the matrix is assembled
+   through forward and cached BESIDE the given one (which keeps acting on function values) *)
+Definition get_matrix_gen (as_is : bool) (m : lmodel) : option (list (list Qc)) :=
+  match lm_mat m with
+  | Some A => if as_is then Some A else option_map (tr (par_dim (lm_R m))) (columns m)
+  | None => option_map (tr (par_dim (lm_R m))) (columns m)
+  end.
+Definition after_get_matrix_gen (as_is : bool) (m : lmodel) : lmodel := if as_is then after_get_matrix m else m.
+
+(* pad + 'valid' convolution dropping the LAST entry for an even PSF length:
+   out[i] = sum_k w[k] * x_ext[i + (L-1)/2 - k]   (equal to `offsets` for odd L) *)
+Definition offsetsT (L : nat) : list Z := map (fun k => (Z.of_nat ((L - 1) / 2) - Z.of_nat k)%Z) (seq 0 L).
+Definition conv1T (m : bc) (P : list Qc) (x : list Qc) : list Qc :=
+  conv1_terms m (combine P (offsetsT (length P))) x.
+Definition offsets2T (L : nat) : list (Z * Z) :=
+  flat_map (fun a => map (fun b => (a, b)) (offsetsT L)) (offsetsT L).
+Definition conv2T (m : bc) (S nr nc : nat) (P : list (list Qc)) (X : list (list Qc)) : list (list Qc) :=
+  conv2_terms m nr nc (combine (concat P) (offsets2T S)) X.
+(* Deconvolution2D's model; trim_last = the repaired _proj_backward_2D *)
+Definition deconv2_model_gen (trim_last : bool) (m : bc) (S n : nat) (P : list (list Qc)) : lmodel :=
+  mkLM (img_op n n (conv2 m S n n P))
+       (img_op n n ((if trim_last then conv2T else conv2) m S n n (flip2 P))) None (GImage n n OC) (GImage n n OC).
+
+(* ------------------------------------------------------------------------------------------ *)
+(* other representations of the input (Model._2fun / _2par / _apply_func)                      *)
+(* ------------------------------------------------------------------------------------------ *)
+(* how the caller hands the input over *)
+Inductive rep :=
+| RArrayPar      (* ndarray, is_par=True (default) *)
+| RArrayFun      (* ndarray of function values, is_par=False *)
+| RCuqiPar       (* CUQIarray(parameters, geometry = the function's domain geometry) *)
+| RCuqiFun       (* CUQIarray(function values, is_par=False, same geometry) *)
+| RCuqiOther.    (* CUQIarray carrying another geometry: treated like an ndarray of parameters *)
+
+Definition rep_is_fun (r : rep) : bool := match r with RArrayFun | RCuqiFun => true | _ => false end.
+Definition rep_wraps (r : rep) : bool := match r with RCuqiPar | RCuqiFun | RCuqiOther => true | _ => false end.
+
+(* _apply_func on representation r: v is the parameter vector (par-like reps) or the function value (fun-like reps) *)
+Definition apply_func_rep (func : val -> option val) (rg dg : geom) (r : rep) (v : val) : option val :=
+  obind (if rep_is_fun r then Some v else p2f dg v) (fun fx => obind (func fx) (f2p rg)).
+Definition forward_rep (m : lmodel) (r : rep) (v : val) := apply_func_rep (lm_fwd m) (lm_R m) (lm_D m) r v.
+Definition adjoint_rep (m : lmodel) (r : rep) (v : val) := apply_func_rep (lm_adj m) (lm_D m) (lm_R m) r v.
+(* Samples input: column by column *)
+Definition forward_samples (m : lmodel) (r : rep) (cols : list val) : option (list val) := all_some (map (forward_rep m r) cols).
+Definition adjoint_samples (m : lmodel) (r : rep) (cols : list val) : option (list val) := all_some (map (adjoint_rep m r) cols).
+
+(* ------------------------------------------------------------------------------------------ *)
 (* comparison with what the implementation returned (tol = 0: exact)                          *)
 (* ------------------------------------------------------------------------------------------ *)
 Definition vec_ok (tol : Q) (obs : option (list Qc)) (mod_ : option val) : bool :=
@@ -300,3 +365,24 @@ Definition check_get_matrix (tol : Q) (m : lmodel) (obs : option (list (list Qc)
   mat_ok tol obs (get_matrix m).
 Definition check_matrix (tol : Q) (A : list (list Qc)) (obs : list (list Qc)) : bool :=
   qcll_close tol obs A.
+
+Definition check_forward_rep (tol : Q) (m : lmodel) (r : rep) (v : val) (obs : option (list Qc)) : bool :=
+  vec_ok tol obs (forward_rep m r v).
+Definition check_adjoint_rep (tol : Q) (m : lmodel) (r : rep) (v : val) (obs : option (list Qc)) : bool :=
+  vec_ok tol obs (adjoint_rep m r v).
+Definition vals_ok (tol : Q) (obs : option (list (list Qc))) (mod_ : option (list val)) : bool :=
+  match obs, mod_ with
+  | None, None => true
+  | Some o, Some l =>
+      (fix go (o : list (list Qc)) (l : list val) : bool :=
+         match o, l with
+         | [], [] => true
+         | a :: o', b :: l' => vec_ok tol (Some a) (Some b) && go o' l'
+         | _, _ => false
+         end) o l
+  | _, _ => false
+  end.
+Definition check_forward_samples tol m r cols obs := vals_ok tol obs (forward_samples m r cols).
+Definition check_adjoint_samples tol m r cols obs := vals_ok tol obs (adjoint_samples m r cols).
+Definition check_get_matrix_gen (tol : Q) (as_is : bool) (m : lmodel) (obs : option (list (list Qc))) : bool :=
+  mat_ok tol obs (get_matrix_gen as_is m).
